@@ -220,14 +220,115 @@ func c15APIMethods() []string {
 	return out
 }
 
+// Callers without a usable client identity.  With ACLs on they hold, like the
+// stranger, no policy line — but for a different reason: the server cannot
+// derive any client id from their context (the id is the CommonName of the leaf
+// of the first verified chain), or derives one that merely resembles a client
+// that holds lines.  The ids below are never written into a policy file; they
+// select the shape of the context c15PeerCtx builds.
+const (
+	c15NoPeer         = "~noid:no-peer-info"          // context without peer info at all
+	c15NoAuthInfo     = "~noid:no-auth-info"          // peer info without transport credentials
+	c15Unverified     = "~noid:unverified-chain"      // TLS state: presented leaf CN=admin, nothing verified
+	c15EmptyChain     = "~noid:empty-verified-chain"  // TLS state: one verified chain of length 0, presented leaf CN=admin
+	c15SANOnly        = "~noid:san-only-certificate"  // verified leaf without CommonName (organisation + DNS SAN only)
+	c15SANOnlyIssuer  = "~noid:san-only-issuer-admin" // the same, its issuer in the verified chain is called admin
+	c15BlankCN        = "~id:blank-common-name"       // verified leaf, CommonName is one space
+	c15AdminCase      = "~id:admin-other-case"        // verified leaf, CommonName "ADMIN"
+	c15AdminSpace     = "~id:admin-trailing-space"    // verified leaf, CommonName "admin "
+	c15IdentityPrefix = "~"
+)
+
+// c15IdentityKinds: the identity-less / look-alike callers, in rotation order.
+var c15IdentityKinds = []string{c15SANOnly, c15NoPeer, c15Unverified, c15SANOnlyIssuer, c15NoAuthInfo, c15EmptyChain, c15BlankCN, c15AdminCase, c15AdminSpace}
+
+// c15Lineless: clients that hold no policy line whatever the generated set is.
+func c15Lineless(cli string) bool {
+	return cli == c15Stranger || strings.HasPrefix(cli, c15IdentityPrefix)
+}
+
+// c15IdentityKind returns the kind label of an identity-less / look-alike
+// caller ("" for ordinary clients).
+func c15IdentityKind(cli string) string {
+	if !strings.HasPrefix(cli, c15IdentityPrefix) {
+		return ""
+	}
+	return cli[strings.Index(cli, ":")+1:]
+}
+
+// c15IdentityClass: the fingerprint class of such a caller — "no-identity" (the
+// server can derive no client id) or "look-alike-identity" (a verified name
+// that is not the name any policy line carries).  One defect in the identity
+// handling then shows as one fingerprint per method, not per kind.
+func c15IdentityClass(cli string) string {
+	switch {
+	case strings.HasPrefix(cli, "~noid:"):
+		return "no-identity"
+	case strings.HasPrefix(cli, "~id:"):
+		return "look-alike-identity"
+	}
+	return ""
+}
+
+// c15DescribeClient: what the caller's context looks like (for witnesses).
+func c15DescribeClient(cli string) string {
+	switch cli {
+	case c15NoPeer:
+		return "context carries no peer info"
+	case c15NoAuthInfo:
+		return "peer info without AuthInfo"
+	case c15Unverified:
+		return "TLS peer presented a certificate with CommonName \"admin\" but no chain was verified (VerifiedChains empty)"
+	case c15EmptyChain:
+		return "TLS state with one verified chain of length 0 (presented certificate CommonName \"admin\")"
+	case c15SANOnly:
+		return "verified client certificate without CommonName (subject O=Example Org, DNS SAN svc.internal): client id is the empty string"
+	case c15SANOnlyIssuer:
+		return "verified client certificate without CommonName whose issuer in the chain has CommonName \"admin\": client id is the empty string"
+	case c15BlankCN:
+		return "verified client certificate with CommonName \" \" (one space)"
+	case c15AdminCase:
+		return "verified client certificate with CommonName \"ADMIN\" (policy lines name \"admin\"; the documented model matches exactly)"
+	case c15AdminSpace:
+		return "verified client certificate with CommonName \"admin \" (trailing space; policy lines name \"admin\")"
+	}
+	return "verified client certificate with CommonName " + strconv.Quote(cli)
+}
+
 // c15PeerCtx builds the context a TLS-authenticated gRPC call carries: peer
 // info with a verified chain whose leaf has the client id as CommonName.  The
 // real interceptors (AuthzUnaryInterceptor / AuthzStreamInterceptor →
-// addUserContext) turn it into the context value the handlers read.
+// addUserContext) turn it into the context value the handlers read.  For the
+// identity-less kinds the context is what such a caller's connection yields.
 func c15PeerCtx(parent context.Context, id string) context.Context {
-	cert := &x509.Certificate{Subject: pkix.Name{CommonName: id}}
-	st := tls.ConnectionState{HandshakeComplete: true, VerifiedChains: [][]*x509.Certificate{{cert}}}
-	return peer.NewContext(parent, &peer.Peer{AuthInfo: credentials.TLSInfo{State: st}})
+	tlsCtx := func(st tls.ConnectionState) context.Context {
+		st.HandshakeComplete = true
+		return peer.NewContext(parent, &peer.Peer{AuthInfo: credentials.TLSInfo{State: st}})
+	}
+	named := func(cn string) *x509.Certificate { return &x509.Certificate{Subject: pkix.Name{CommonName: cn}} }
+	sanOnly := &x509.Certificate{Subject: pkix.Name{Organization: []string{"Example Org"}}, DNSNames: []string{"svc.internal"}}
+	switch id {
+	case c15NoPeer:
+		return parent
+	case c15NoAuthInfo:
+		return peer.NewContext(parent, &peer.Peer{})
+	case c15Unverified:
+		return tlsCtx(tls.ConnectionState{PeerCertificates: []*x509.Certificate{named(c15Admin)}})
+	case c15EmptyChain:
+		return tlsCtx(tls.ConnectionState{PeerCertificates: []*x509.Certificate{named(c15Admin)}, VerifiedChains: [][]*x509.Certificate{{}}})
+	case c15SANOnly:
+		return tlsCtx(tls.ConnectionState{PeerCertificates: []*x509.Certificate{sanOnly}, VerifiedChains: [][]*x509.Certificate{{sanOnly, named("Test CA")}}})
+	case c15SANOnlyIssuer:
+		return tlsCtx(tls.ConnectionState{PeerCertificates: []*x509.Certificate{sanOnly}, VerifiedChains: [][]*x509.Certificate{{sanOnly, named(c15Admin)}}})
+	case c15BlankCN:
+		id = " "
+	case c15AdminCase:
+		id = strings.ToUpper(c15Admin)
+	case c15AdminSpace:
+		id = c15Admin + " "
+	}
+	cert := named(id)
+	return tlsCtx(tls.ConnectionState{PeerCertificates: []*x509.Certificate{cert}, VerifiedChains: [][]*x509.Certificate{{cert}}})
 }
 
 // call runs one unary RPC.  timeout 0 = no deadline (fire-and-forget publish).
@@ -417,6 +518,8 @@ type c15World struct {
 	nCurParts  int32
 	reloads    int
 	sampled    int
+	sweeps     int // identity sweeps generated so far (rotation of kinds x methods)
+	kindRot    int // start of this process' rotation through c15IdentityKinds
 	hupBarrier int
 }
 
